@@ -8,6 +8,11 @@ ProgBase == [w |-> <<[op |-> "PushTag", a |-> "m2"], [op |-> "DelMan", a |-> "m1
              v |-> <<[op |-> "Write", a |-> <<2>>]>>]
 ProgRB == [ProgBase EXCEPT !.v = <<[op |-> "Write", a |-> <<2>>], [op |-> "GetBlob", a |-> <<1>>]>>,
                            !.r = <<[op |-> "GetTag", a |-> "-"], [op |-> "GetBlob", a |-> <<1>>]>>]
+\* two committers on one upload with a write in between, and read-backs of both blobs
+ProgCC == [a |-> <<[op |-> "Commit", a |-> <<1>>]>>,
+           b |-> <<[op |-> "Write", a |-> <<2>>]>>,
+           c |-> <<[op |-> "Commit", a |-> <<1, 2>>]>>,
+           r |-> <<[op |-> "GetBlob", a |-> <<1>>], [op |-> "GetBlob", a |-> <<1, 2>>]>>]
 \* every complete schedule, printed for replay on the real ocimem (direction A)
 Emit == Done => PrintT(<<"MBT", ToJson([sched |-> sched])>>)
 ===========================================================================
